@@ -677,36 +677,37 @@ theorem phys_history_safe (scan : List B → Option String) (ops : List OpM) :
   exact ⟨h2, h1, (ops.foldl (runOpM scan) MP.init).capok⟩
 
 /-- regenerated: the memory events (stack-primitive calls, count updates, indexed accesses) of every parse.c function that
-    `Parse/Phys.lean` mirrors, in source order, are the ones the machine was written from -- `popstateM` (pop one frame, `newtop`,
+    `Parse/Phys.lean` mirrors, in source order up to swapping adjacent statements that touch different stacks
+    (`commute_normal_form` in tools/gen/parse.py; loop bounds over the argument stack are part of the event), are the ones the machine was written from -- `popstateM` (pop one frame, `newtop`,
     one `push_arg`), `stringendM` (top frame, `bufcount = 0`, popstate), `tokencharM` (`push_buf` | `buf[0]`, `bufcount = 0`, popstate),
     `commentM`, `popArgsM` (the four `close_*`), `longstringM`, `atsignM` (`statecount--`, then one `pushstate`, `push_buf '@'`), `rootM`,
     `consumeLoopM` (`states + statecount - 1`), `eofM`, `flushM`, `takeErrorM`, `produce(Wrapped)M`; the translator also checks that NO other
     function of parse.c touches a count, a block or a stack primitive.  An added / removed / reordered push, pop or indexed access
     changes this list and the obligation stops checking. -/
 theorem phys_machine_source_ops : memOps = [
-  ("popstate", ["states[--statecount]", "states+statecount-1", "push_arg"]),
+  ("popstate", ["push_arg", "states[--statecount]", "states+statecount-1"]),
   ("delim_error", ["states+stack_index"]),
   ("write_codepoint", ["push_buf", "push_buf", "push_buf", "push_buf", "push_buf", "push_buf", "push_buf", "push_buf", "push_buf", "push_buf"]),
   ("escapeh", ["push_buf"]),
   ("escapeu", ["write_codepoint"]),
   ("escape1", ["push_buf"]),
-  ("stringend", ["states[statecount-1]", "bufcount=0", "popstate"]),
+  ("stringend", ["bufcount=0", "states[statecount-1]", "popstate"]),
   ("stringchar", ["stringend", "push_buf"]),
   ("tokenchar", ["push_buf", "buf[0]", "bufcount=0", "popstate"]),
-  ("comment", ["statecount--", "bufcount=0", "push_buf"]),
-  ("close_tuple", ["args[--argcount]"]),
-  ("close_array", ["args[--argcount]"]),
-  ("close_struct", ["args[i]", "args[i+1]", "argcount-=argn"]),
-  ("close_table", ["args[i]", "args[i+1]", "argcount-=argn"]),
+  ("comment", ["bufcount=0", "push_buf", "statecount--"]),
+  ("close_tuple", ["for(i=argn-1;i>=0;i--)args[--argcount]"]),
+  ("close_array", ["for(i=argn-1;i>=0;i--)args[--argcount]"]),
+  ("close_struct", ["for(i=argcount-argn;i<argcount;i+=2)", "args[i]", "args[i+1]", "argcount-=argn"]),
+  ("close_table", ["for(i=argcount-argn;i<argcount;i+=2)", "args[i]", "args[i+1]", "argcount-=argn"]),
   ("longstring", ["push_buf", "stringend", "push_buf", "push_buf", "push_buf"]),
-  ("atsign", ["statecount--", "pushstate", "pushstate", "pushstate", "pushstate", "pushstate", "pushstate", "push_buf"]),
+  ("atsign", ["push_buf", "statecount--", "pushstate", "pushstate", "pushstate", "pushstate", "pushstate", "pushstate"]),
   ("root", ["pushstate", "pushstate", "pushstate", "pushstate", "pushstate", "pushstate", "delim_error", "close_array", "close_tuple", "close_table", "close_struct", "delim_error", "popstate", "pushstate", "pushstate", "pushstate"]),
   ("janet_parser_consume", ["states+statecount-1"]),
   ("janet_parser_eof", ["consume", "delim_error"]),
-  ("janet_parser_flush", ["argcount=0", "statecount=1", "bufcount=0", "states[0]"]),
+  ("janet_parser_flush", ["argcount=0", "bufcount=0", "statecount=1", "states[0]"]),
   ("janet_parser_error", ["status", "flush"]),
-  ("janet_parser_produce", ["args[0]", "args[i-1]=args[i]", "argcount--", "states[0]"]),
-  ("janet_parser_produce_wrapped", ["args[0]", "args[i-1]=args[i]", "argcount--", "states[0]"])] := by decide
+  ("janet_parser_produce", ["args[0]", "for(i=1;i<argcount;i++)args[i-1]=args[i]", "argcount--", "states[0]"]),
+  ("janet_parser_produce_wrapped", ["args[0]", "for(i=1;i<argcount;i++)args[i-1]=args[i]", "argcount--", "states[0]"])] := by decide
 
 /-- the shape facts behind `p->buf[0]`: along any such history every frame below the top is a `root` frame and a token frame on top
     has a non-empty scratch buffer -/
